@@ -351,12 +351,17 @@ class ConnectionState:
             self.selected, cmd.sequence_set, cmd.flag_set, cmd.mode)
         resp = ResponseOk(cmd.tag, cmd.command + b' completed.')
         session_flags = self.selected.session_flags
+        synchronized = updates.messages
         for msg_seq, msg in messages:
             if msg.expunged:
                 resp.code = ResponseCode.of(b'EXPUNGEISSUED')
             elif cmd.silent:
                 continue
-            flags = msg.get_flags(session_flags)
+            # Report the flags as they were synchronized at the end of the
+            # command, which is what later updates are compared against. The
+            # message object may predate another session's update.
+            current = None if msg.expunged else synchronized.get(msg.uid)
+            flags = (current or msg).get_flags(session_flags)
             fetch_data: list[FetchValue] = [
                 FetchValue.of(_flags_attr, List(flags, sort=True))]
             if cmd.uid:
